@@ -78,6 +78,18 @@ def gen_dm(rng, nmin=1, mmin=1):
         # boundary weights: 0 is a legal weight and must survive every derivation like any other
         for j in (range(m) if rng.random() < 0.3 else rng.sample(range(m), rng.randint(1, m))):
             w[j] = 0.0
+    alts_ = gen.labels(rng, n, gen.LABEL_POOL_A, "A", kinds=False)
+    crits_ = gen.labels(rng, m, gen.LABEL_POOL_C, "C", kinds=False)
+    if rng.random() < 0.2:
+        # an alternative and a criterion may carry the same name (the two axes have separate namespaces)
+        for _ in range(rng.randint(1, min(n, m))):
+            i, j = rng.randrange(n), rng.randrange(m)
+            if crits_[j] not in alts_:
+                alts_[i] = crits_[j]
+    return {
+        "matrix": mtx, "dtypes": dts, "objectives": gen.objectives(rng, m),
+        "weights": w, "alternatives": alts_, "criteria": crits_,
+    }
     return {
         "matrix": mtx, "dtypes": dts, "objectives": gen.objectives(rng, m),
         "weights": w,
@@ -114,7 +126,18 @@ def gen_sel(rng, labels, positional, allow_dup):
         step = rng.choice([None, 1, -1])
         return {"k": "lslice", "a": labels[i], "b": labels[j], "step": step}
     bs = [rng.random() < 0.6 for _ in range(n)]
-    return {"k": "mask", "v": bs}
+    sel = {"k": "mask", "v": bs}
+    if not positional and rng.random() < 0.5:
+        series_mask(rng, sel, labels)
+    return sel
+
+
+def series_mask(rng, sel, labels):
+    """The same mask as a LABELLED boolean Series whose entries are listed in another order: it selects by label."""
+    order = list(labels)
+    rng.shuffle(order)
+    sel["labels"], sel["series_order"] = list(labels), order
+    return sel
 
 
 def apply_sel_shape(sel, labels):
@@ -165,6 +188,8 @@ def gen_chain(rng, case, nops=None):
                 s = gen_sel(rng, alts, True, False)
                 while s["k"] not in ("pslice", "mask"):
                     s = gen_sel(rng, alts, True, False)
+                if s["k"] == "mask" and rng.random() < 0.5:
+                    series_mask(rng, s, alts)
                 op = {"api": api, "rows": s, "cols": None}
         else:
             positional = api == "iloc"
@@ -186,6 +211,10 @@ def py_index(sel):
     k = sel["k"]
     if k == "all":
         return slice(None)
+    if k == "mask" and "series_order" in sel:
+        import pandas as pd
+        pos = {l: i for i, l in enumerate(sel["labels"])}
+        return pd.Series([bool(sel["v"][pos[l]]) for l in sel["series_order"]], index=list(sel["series_order"]))
     if k in ("labels", "pos", "mask"):
         return list(sel["v"])
     if k in ("label", "posint"):
@@ -315,6 +344,20 @@ def oracle(case, fin):
                 return f"alternative {a!r} does not exist in the source"
             if fin["matrix"][i][j] != case["matrix"][src_a[a]][sj]:
                 return f"cell ({a!r},{c!r}) = {fin['matrix'][i][j]} but source has {case['matrix'][src_a[a]][sj]}"
+    # the derived matrix lists exactly what the chain of selections asked for, in the order it asked for it
+    try:
+        alts, crits = list(case["alternatives"]), list(case["criteria"])
+        for op in case["ops"]:
+            if op.get("rows"):
+                alts = apply_sel_shape(op["rows"], alts)
+            if op.get("cols"):
+                crits = apply_sel_shape(op["cols"], crits)
+        if fin["alternatives"] != alts:
+            return f"alternatives {fin['alternatives']} but the selections ask for {alts}"
+        if fin["criteria"] != crits:
+            return f"criteria {fin['criteria']} but the selections ask for {crits}"
+    except (ValueError, IndexError, KeyError, TypeError):
+        pass
     # requested order for a single-step explicit label list
     if len(case["ops"]) == 1:
         op = case["ops"][0]
